@@ -16,50 +16,50 @@ var intrinsics = map[string]intrinsicFn{}
 
 func init() {
 	for k, v := range map[string]intrinsicFn{
-		"zzParam":        zzParam,
-		"zzPath":         zzParam,
-		"zzInt":          zzInt,
-		"zzIntRange":     zzIntRange,
-		"zzFloat":        zzFloat,
-		"zzBool":         zzBool,
-		"zzByte":         zzByte,
-		"zzHoleInt":      zzHoleInt,
-		"zzHoleIntErr":   zzHoleIntErr,
-		"zzHoleFloat":    zzHoleFloat,
-		"zzDoc":          zzDoc,
-		"zzAssume":       zzAssume,
-		"zzAssert":       zzAssert,
-		"zzFail":         zzFail,
-		"zzSame":         zzSame,
-		"zzDocUnchanged": zzDocUnchanged,
-		"zzOut":          zzOut,
-		"zzOutStr":       zzOutStr,
-		"zzKindOf":       zzKindOf,
-		"zzLog":          zzLog,
-		"zzIsNaN":        zzIsNaN,
-		"zzFloatEq":      zzFloatEq,
-		"zzNumValue":     zzNumValue,
-		"zzStrEq":        zzStrEq,
-		"zzMutexFree":    zzMutexFree,
-		"zzEngine":       func(s *State, a []Value) Value { return true },
-		"zzSortedKeys":   zzSortedKeys,
-		"zzSymString":    zzSymString,
-		"zzEpoch":        zzEpoch,
-		"zzFresh":        zzFresh,
-		"zzTreeMark":     zzTreeMark,
+		"zzParam":         zzParam,
+		"zzPath":          zzParam,
+		"zzInt":           zzInt,
+		"zzIntRange":      zzIntRange,
+		"zzFloat":         zzFloat,
+		"zzBool":          zzBool,
+		"zzByte":          zzByte,
+		"zzHoleInt":       zzHoleInt,
+		"zzHoleIntErr":    zzHoleIntErr,
+		"zzHoleFloat":     zzHoleFloat,
+		"zzDoc":           zzDoc,
+		"zzAssume":        zzAssume,
+		"zzAssert":        zzAssert,
+		"zzFail":          zzFail,
+		"zzSame":          zzSame,
+		"zzDocUnchanged":  zzDocUnchanged,
+		"zzOut":           zzOut,
+		"zzOutStr":        zzOutStr,
+		"zzKindOf":        zzKindOf,
+		"zzLog":           zzLog,
+		"zzIsNaN":         zzIsNaN,
+		"zzFloatEq":       zzFloatEq,
+		"zzNumValue":      zzNumValue,
+		"zzStrEq":         zzStrEq,
+		"zzMutexFree":     zzMutexFree,
+		"zzEngine":        func(s *State, a []Value) Value { return true },
+		"zzSortedKeys":    zzSortedKeys,
+		"zzSymString":     zzSymString,
+		"zzEpoch":         zzEpoch,
+		"zzFresh":         zzFresh,
+		"zzTreeMark":      zzTreeMark,
 		"zzTreeUnchanged": zzTreeUnchanged,
-		"zzPoisonClean":  zzPoisonClean,
-		"zzAccessStart":  zzAccessStart,
-		"zzAccessCheck":  zzAccessCheck,
-		"zzParserClean":  zzParserClean,
-		"zzRegexMatch":   zzRegexMatch,
-		"zzTypeName":     zzTypeName,
-		"zzOpaqueInit":   zzOpaqueInit,
-		"zzJSON":         zzJSON,
-		"zzParamInt":     zzParamInt,
-		"zzRepeat":       func(s *State, a []Value) Value { return int64(1) },
-		"zzIsolated":     zzIsolated,
-		"zzDeepEqual":    func(s *State, a []Value) Value { return s.deepEqual(a[0], a[1], 0) },
+		"zzPoisonClean":   zzPoisonClean,
+		"zzAccessStart":   zzAccessStart,
+		"zzAccessCheck":   zzAccessCheck,
+		"zzParserClean":   zzParserClean,
+		"zzRegexMatch":    zzRegexMatch,
+		"zzTypeName":      zzTypeName,
+		"zzOpaqueInit":    zzOpaqueInit,
+		"zzJSON":          zzJSON,
+		"zzParamInt":      zzParamInt,
+		"zzRepeat":        func(s *State, a []Value) Value { return int64(1) },
+		"zzIsolated":      zzIsolated,
+		"zzDeepEqual":     func(s *State, a []Value) Value { return s.deepEqual(a[0], a[1], 0) },
 	} {
 		intrinsics[k] = v
 	}
